@@ -67,12 +67,23 @@ def run_inline(files, flags=(), cwd=None, pyproject=None):
     return out
 
 
+import builtins as _b
+
+_BUILTINS = dict(_b.__dict__)
+
+
 def reexec(files, only=None, ns_hook=None):
     """Run every test_* function of every .py file with inline-snapshot inactive
     (snapshot(x) is x, snapshot() raises).  Returns name -> {"module_error", "tests": {fn: None|str}}"""
     from inline_snapshot._global_state import state
 
     assert not state().active, "reexec must run outside any snapshot session"
+    # "run again with inline-snapshot disabled" is a new process: builtins a session left replaced must not help the re-run
+    import builtins
+
+    for k, v in _BUILTINS.items():
+        if builtins.__dict__.get(k) is not v:
+            builtins.__dict__[k] = v
     res = {}
     for name, src in sorted(files.items()):
         if not name.endswith(".py") or (only and name not in only):
